@@ -33,6 +33,8 @@ def cli(argot, d, timeout=600):
 def run(chk):
     tier = chk.tier
     failed = chk.prove("theories/Properties/C01.v")
+    from props import visit_tie
+    visit_tie.run(chk)
     C.build()
     argot = vlib.build_argot()
     work = os.path.join(vlib.BUILD, "c01")
